@@ -304,7 +304,13 @@ static bool run_path(const Cfg& cfg, const std::vector<Step>& path, unsigned lon
       if (read && readv == kInv) { CNT.add("c14.invalid_consumed"); }
     }
     if (key.empty() && sys.getLastSyncTime() != lastValid) { key = "c14:lastsync-wrong"; what = "getLastSyncTime != last valid response"; }
-    if (key.empty() && sys.getNow() != shadow.getNow()) { key = "c14:time-corrupted"; what = "clock trajectory differs from one that received only the valid responses"; }
+    // The clock is READ only at the end of a path (every prefix is executed as a path of its own, so every step is
+    // still the end of some run) and, on long random walks, at a sparse subset of steps: reading it is itself a
+    // keep-alive of the 16-bit millisecond bookkeeping, and a monitor that reads after every loop() would do the
+    // job loop() is supposed to do (seeded change C14g).
+    bool observe = (i + 1 == path.size()) || (path.size() > 12 && ((i * 2654435761u + path.size()) % 7 == 0));
+    if (observe) CNT.add("c14.clock_reads");
+    if (key.empty() && observe && sys.getNow() != shadow.getNow()) { key = "c14:time-corrupted"; what = "clock trajectory differs from one that received only the valid responses"; }
     if (key.empty() && sys.isInit() != shadow.isInit()) { key = "c14:isInit-wrong"; what = "isInit differs from shadow"; }
     // failure detection for the model: outstanding request failed if an invalid response was
     // consumed, or readiness was consulted negative at/after the timeout
